@@ -57,7 +57,19 @@ Inductive op : Type :=
 | OTraverse
 | OCount
 | ORemoveIf (m r : Z)                     (* Remove(filter) with filter(k) = (k mod m == r): the iterator loop *)
-| OCopy.                                  (* copy constructor + swap *)
+| OCopy                                   (* copy constructor + swap *)
+| OAddAt (k v : Z)                        (* pos = Find(k) failed; Add(pos, item): pvAdd with the hash code kept in the position *)
+| OInsertNoMem (k v : Z).                 (* insert while the allocation of a new bucket array is refused (bad_alloc):
+                                             HashSetSettings::overloadIfCannotGrow -> pvAddNogrow on the existing table *)
+
+(* operations on a pair of containers a, b plus one ExtractedItem holder *)
+Inductive wop : Type :=
+| WA (o : op) | WB (o : op)     (* an operation on a / on b *)
+| WExtract (k : Z)              (* pos = a.Find(k); if (pos && holder empty) holder = a.Extract(pos)   (pvExtract -> pvRemove) *)
+| WInsertExt                    (* a.Insert(std::move(holder)): pvInsert; the holder keeps the item when the key is present *)
+| WSwap                         (* a.Swap(b) *)
+| WMoveAB                       (* b = std::move(a): b's old contents are destroyed, a becomes the empty moved-from container *)
+| WMergeAB.                     (* a.MergeTo(b): every item of a, in iteration order, is extracted into b unless b has the key *)
 
 Section HashModel.
   Variable B : Type.                 (* encoded max-probe state *)
@@ -233,6 +245,17 @@ Section HashModel.
            | Some t' => Some (mkH (relocate (t' :: gens s) bud) (count s + 1) ncap)
            end.
 
+  (* pvAdd when Buckets::Create throws bad_alloc: with buckets -> overload the existing newest table; without -> rethrow *)
+  Definition hadd_nomem (s : hset) (kv : item) : option hset :=
+    if count s <? capacity s then hadd s kv None
+    else match gens s with
+         | [] => None
+         | t :: r => match tadd t kv with
+                     | None => None
+                     | Some t' => Some (mkH (relocate (t' :: r) None) (count s + 1) (capacity s))
+                     end
+         end.
+
   (* Reserve: ++newLogBucketCount until the capacity suffices *)
   Fixpoint reserve_log (fuel : nat) (nl n : Z) : option Z :=
     if n <=? calcCapacity (2 ^ nl) then Some nl
@@ -332,12 +355,77 @@ Section HashModel.
     | OCount => (s, RNum (count s))
     | ORemoveIf m r => match hremove_if s (fun kv => Z.eqb (fst kv mod m) r) with (s', c) => (s', RNum c) end
     | OCopy => match hcopy s with Some s' => (s', RUnit) | None => (s, RExn) end
+    | OAddAt k v =>
+      match hfind s k with
+      | Some _ => (s, RBool false)
+      | None => match hadd s (k, v) None with Some s' => (s', RBool true) | None => (s, RExn) end
+      end
+    | OInsertNoMem k v =>
+      match hfind s k with
+      | Some _ => (s, RBool false)
+      | None => match hadd_nomem s (k, v) with Some s' => (s', RBool true) | None => (s, RExn) end
+      end
     end.
 
   Fixpoint run (s : hset) (os : list op) : hset * list out :=
     match os with
     | [] => (s, [])
     | o :: r => match step s o with (s1, x) => match run s1 r with (s2, xs) => (s2, x :: xs) end end
+    end.
+
+  (* ---- two containers + an extracted-item holder ---- *)
+  Record world : Type := mkW { wa : hset; wb : hset; wext : option item }.
+  Definition winit : world := mkW hinit hinit None.
+
+  (* pvMergeTo: iter = GetBegin(); while (iter) { if (!dst.InsertCrt(key, creator-that-extracts(iter)).inserted) ++iter; }
+     (the extraction of the visited item is the same bucket operation as Remove of that item; an exception of the
+      destination's insert stops the loop: basic guarantee) *)
+  Fixpoint merge_loop (its : list item) (a b : hset) : hset * hset * bool :=
+    match its with
+    | [] => (a, b, true)
+    | (k, v) :: r =>
+      match hfind b k with
+      | Some _ => merge_loop r a b
+      | None => match hadd b (k, v) None with
+                | None => (a, b, false)
+                | Some b' => merge_loop r (fst (step a (ORemove k))) b'
+                end
+      end
+    end.
+
+  Definition wstep (w : world) (o : wop) : world * out :=
+    match o with
+    | WA o => match step (wa w) o with (a', x) => (mkW a' (wb w) (wext w), x) end
+    | WB o => match step (wb w) o with (b', x) => (mkW (wa w) b' (wext w), x) end
+    | WExtract k =>
+      match wext w with
+      | Some _ => (w, RBool false)
+      | None => match hfind (wa w) k with
+                | Some (_, _, _, v) => (mkW (fst (step (wa w) (ORemove k))) (wb w) (Some (k, v)), RBool true)
+                | None => (w, RBool false)
+                end
+      end
+    | WInsertExt =>
+      match wext w with
+      | None => (w, RBool false)
+      | Some (k, v) =>
+        match step (wa w) (OInsert k v None) with
+        | (a', RBool true) => (mkW a' (wb w) None, RBool true)
+        | (a', x) => (mkW a' (wb w) (wext w), x)
+        end
+      end
+    | WSwap => (mkW (wb w) (wa w) (wext w), RUnit)
+    | WMoveAB => (mkW hinit (wa w) (wext w), RUnit)
+    | WMergeAB =>
+      match merge_loop (if count (wa w) =? 0 then [] else traverse (wa w)) (wa w) (wb w) with
+      | (a', b', ok) => (mkW a' b' (wext w), if ok then RUnit else RExn)
+      end
+    end.
+
+  Fixpoint wrun (w : world) (os : list wop) : world * list out :=
+    match os with
+    | [] => (w, [])
+    | o :: r => match wstep w o with (w1, x) => match wrun w1 r with (w2, xs) => (w2, x :: xs) end end
     end.
 
   (* shape observation used by the correspondence stage (per generation: log, per bucket: keys in Bounds order, WasFull, decoded bound) *)
